@@ -6,6 +6,8 @@ var setterExceptions = map[string]string{
 
 func init() { register("C17", propC17) }
 
+const wgslNamesClause = "frontend keyword tables (E18): every entry of the lowerer's map[string]ir.<Enum> literals (builtin values, address spaces, texel formats, math builtins) maps a WGSL word to the IR constant named by the same word (case, underscores and the enum prefix aside)"
+
 func propC17(c *Ctx, r *Report) {
 	r.Clauses = append(r.Clauses,
 		"total setters (E7, go/cfg must-assign): a backend method that computes per-entry-point binding state into a receiver field on two or more result-like paths (assign-then-return) assigns it on every non-error path, so no entry point is emitted with the slot map / interface state left by the previous one")
@@ -16,6 +18,9 @@ func propC17(c *Ctx, r *Report) {
 	c.runBlockWalkers(r, "operands", "backends", inPkgs("spirv/internal/codegen", "msl/internal/codegen", "hlsl/internal/codegen", "glsl/internal/codegen"), nil)
 	r.Clauses = append(r.Clauses, enumMapClause)
 	c.runEnumTables(r, "spirv", "hlsl", "msl", "glsl")
+	r.Clauses = append(r.Clauses, wgslNamesClause)
+	c.runWGSLNameTables(r, "names.wgsltable", "wgsl/internal/lower")
+	r.floor("names.wgsltable", 100)
 	r.Clauses = append(r.Clauses, guardAgreeClause)
 	c.runGuardAgree(r, "guard.agree", inPkgs("msl", "hlsl", "glsl", "spirv"))
 	r.floor("guard.agree", 4)
